@@ -284,6 +284,16 @@ func runC18(r *mc.Run) {
 			cases = append(cases, c18case{vp[0], vp[1], b})
 		}
 	}
+	// whole-register values a shortcut might treat specially: all zero (the reset value), all 0xFF, another
+	// register's value, only the first 32 / last 16 bytes kept, byte-reversed; alone and with one fault of each gate
+	specials := []string{"zero", "ff", "next-register", "tail16-zero", "head32-zero", "reversed"}
+	for i := 0; i < 4; i++ {
+		for k := range specials {
+			for _, vp := range [][2]int{{0, 0}, {2, 0}, {0, 1}} {
+				cases = append(cases, c18case{vp[0], vp[1], nbits + 10*i + k})
+			}
+		}
+	}
 	if r.Thorough() {
 		for v := range vfaults {
 			for p := range pfaults {
@@ -298,7 +308,12 @@ func runC18(r *mc.Run) {
 	done := r.Parallel(len(cases), func(i int) {
 		c := cases[i]
 		id := fmt.Sprintf("ccel/verify=%s,policy=%s", vfaults[c.v].name, pfaults[c.p].name)
-		if c.bit >= 0 {
+		special := c.bit >= nbits
+		reg := c.bit / 384
+		if special {
+			reg = (c.bit - nbits) / 10
+			id += fmt.Sprintf(",rtmr%d=%s", reg, specials[(c.bit-nbits)%10])
+		} else if c.bit >= 0 {
 			id += fmt.Sprintf(",rtmr%d^bit%d", c.bit/384, c.bit%384)
 		}
 		if !r.Want(id) {
@@ -306,7 +321,29 @@ func runC18(r *mc.Run) {
 		}
 		p := baseParts()
 		o := baseOpts()
-		if c.bit >= 0 {
+		changed := c.bit >= 0
+		if special {
+			cur := p.Body[328+48*reg : 376+48*reg]
+			old := append([]byte(nil), cur...)
+			switch specials[(c.bit-nbits)%10] {
+			case "zero":
+				copy(cur, make([]byte, 48))
+			case "ff":
+				copy(cur, bytes.Repeat([]byte{0xff}, 48))
+			case "next-register":
+				nx := (reg + 1) % 4
+				copy(cur, append([]byte(nil), p.Body[328+48*nx:376+48*nx]...))
+			case "tail16-zero":
+				copy(cur[32:], make([]byte, 16))
+			case "head32-zero":
+				copy(cur[:32], make([]byte, 32))
+			case "reversed":
+				for a, b := 0, 47; a < b; a, b = a+1, b-1 {
+					cur[a], cur[b] = cur[b], cur[a]
+				}
+			}
+			changed = !bytes.Equal(old, cur)
+		} else if c.bit >= 0 {
 			p.Body[328+c.bit/8] ^= 1 << uint(c.bit%8)
 		}
 		p.SignBody(att) // the RTMR change is correctly re-signed: the signature chain stays valid
@@ -333,8 +370,8 @@ func runC18(r *mc.Run) {
 		pol := polOf(o.Validation)
 		rp, _ := ref.ParseQuote(raw)
 		gateP := pol.Judge(rp) == ref.MustAccept
-		measuredFlip := c.bit >= 0 && measured[c.bit/384]
-		unmeasuredFlip := c.bit >= 0 && !measured[c.bit/384]
+		measuredFlip := changed && measured[reg]
+		unmeasuredFlip := changed && !measured[reg]
 		out := "error"
 		if st != nil && err == nil {
 			out = "state"
@@ -353,12 +390,12 @@ func runC18(r *mc.Run) {
 			r.Violate("state-despite-policy-failure:"+pfaults[c.p].name, id, "a firmware log state is returned although the quote fails the policy ("+pfaults[c.p].name+")", detail)
 			out += "!"
 		case st != nil && measuredFlip:
-			r.Violate(fmt.Sprintf("state-despite-rtmr-mismatch:rtmr%d", c.bit/384), id, "a firmware log state is returned although a measured RTMR of the (correctly re-signed) quote differs from the replay", detail)
+			r.Violate(fmt.Sprintf("state-despite-rtmr-mismatch:rtmr%d", reg), id, "a firmware log state is returned although a measured RTMR of the (correctly re-signed) quote differs from the replay", detail)
 			out += "!"
 		case (!gateV || !gateP || measuredFlip) && err == nil:
 			r.Violate("no-error-on-failure", id, "a gate failed but no error is returned", detail)
 			out = "nil-error!"
-		case gateV && gateP && c.bit < 0 && (st == nil || err != nil):
+		case gateV && gateP && !changed && (st == nil || err != nil):
 			r.Violate("baseline-rejected", id, "the unmodified re-signed quote with its event log yields no state: "+errStr(err), detail)
 			out += "!"
 		}
